@@ -23,13 +23,23 @@ REPO = os.environ.get("RXVC_REPO", "/repo")  # the tree under test (the checks r
 if REPO not in sys.path:
     sys.path.insert(0, REPO)
 
-BEHAVIOURS = ["plain", "unsub_self_on_next", "unsub_other_on_next", "sub_other_on_next", "raise_on_next"]
+BEHAVIOURS = ["plain", "unsub_self_on_next", "unsub_other_on_next", "sub_other_on_next", "raise_on_next", "dispose_on_error"]
 # element values: 1 and True compare equal and are different values (a subject that compares elements instead of keeping them shows here); None is falsy
-OPS = [("sub", 0), ("sub", 1), ("unsub", 0), ("unsub", 1), ("next", 1), ("next", True), ("next", None), ("error",), ("completed",), ("dispose",)]
+OPS = [("sub", 0), ("sub", 1), ("unsub", 0), ("unsub", 1), ("next", 1), ("next", True), ("next", None), ("error",), ("error_falsy",), ("completed",), ("dispose",)]
 
 
 class Boom(Exception):
     pass
+
+
+class FalsyBoom(Boom):
+    """an exception object whose truth value is False (an aggregate error with no sub-errors): still the error the subject ended with"""
+
+    def __bool__(self):
+        return False
+
+    def __len__(self):
+        return 0
 
 
 class Rec:
@@ -59,6 +69,9 @@ class Rec:
 
     def on_error(self, e):
         self.log.append(("E", type(e).__name__))
+        if self.behaviour == "dispose_on_error":
+            # the first observer disposes the subject from inside its on_error callback: the others still get THE error
+            self.driver.do(("dispose",))
 
     def on_completed(self):
         self.log.append(("C",))
@@ -89,6 +102,8 @@ class RealDriver:
             self.subject.on_next(op[1])
         elif k == "error":
             self.subject.on_error(Boom("src"))
+        elif k == "error_falsy":
+            self.subject.on_error(FalsyBoom("src"))
         elif k == "completed":
             self.subject.on_completed()
         elif k == "dispose":
@@ -153,6 +168,8 @@ class SpecDriver:
             self.s.on_next(op[1])
         elif k == "error":
             self.s.on_error(Boom("src"))
+        elif k == "error_falsy":
+            self.s.on_error(FalsyBoom("src"))
         elif k == "completed":
             self.s.on_completed()
         elif k == "dispose":
